@@ -90,7 +90,7 @@ BUILTINS = {'len': len, 'int': int, 'bool': bool, 'min': min, 'max': max, 'abs':
 METHODS = {(int, 'bit_length'), (bytes, 'lstrip'), (bytes, 'rstrip'), (bytearray, 'lstrip'), (bytearray, 'rstrip'),
            (list, 'append'), (str, 'join'), (str, 'lower'), (str, 'upper'), (str, 'encode'), (bytes, 'join'),
            (bytes, 'decode'), (bytes, 'hex'), (str, 'format')}
-for _m in ('items', 'keys', 'values', 'get', 'pop', 'setdefault'):
+for _m in ('items', 'keys', 'values', 'get', 'pop', 'setdefault', 'update', 'copy', 'clear', 'popitem'):
     METHODS.add((dict, _m))
 for _m in ('insert', 'extend', 'clear', 'reverse', 'pop', 'remove', 'index', 'count', 'copy', 'sort'):
     METHODS.add((list, _m))
